@@ -22,12 +22,20 @@ type LossFrame struct {
 	FUSize int       `json:"fu_size,omitempty"` // fragment size used by the independent encoder
 }
 
+// Garbage is an arbitrary input delivered before packet Pos of frame A (Pos >= the
+// number of A's packets: after A, right before frame B). It is always delivered,
+// whatever the loss subset.
+type Garbage struct {
+	Pos  int      `json:"pos"`
+	Data HexBytes `json:"data"`
+}
+
 type LossCase struct {
-	Codec   string     `json:"codec"` // h264 | h264avc | av1
-	A       LossFrame  `json:"a"`
-	B       LossFrame  `json:"b"`
-	Garbage []HexBytes `json:"garbage"`
-	Seed    uint64     `json:"seed"` // selects the subsets when A has more than 10 packets
+	Codec   string    `json:"codec"` // h264 | h264avc | av1
+	A       LossFrame `json:"a"`
+	B       LossFrame `json:"b"`
+	Garbage []Garbage `json:"garbage"`
+	Seed    uint64    `json:"seed"` // selects the subsets when A has more than 10 packets
 }
 
 var subC15 = register("C15", "loss", checkC15)
@@ -175,12 +183,14 @@ func checkC15(r *run, c *LossCase) (CaseInfo, error) {
 	openSubsets := 0
 	for _, m := range masks {
 		d := newDepack(c.Codec)
-		for _, g := range c.Garbage {
-			feed(d, g)
-		}
-		for i, p := range a {
-			if m&(1<<uint(i)) != 0 {
-				feed(d, p)
+		for i := 0; i <= len(a); i++ {
+			for _, g := range c.Garbage {
+				if g.Pos == i || (i == len(a) && g.Pos > len(a)) {
+					feed(d, g.Data)
+				}
+			}
+			if i < len(a) && m&(1<<uint(i)) != 0 {
+				feed(d, a[i])
 			}
 		}
 		open := opensTrain(c.Codec, a, m)
@@ -190,7 +200,7 @@ func checkC15(r *run, c *LossCase) (CaseInfo, error) {
 		for i, p := range b {
 			got := feed(d, p)
 			if got.err != want[i].err || !bytes.Equal(got.out, want[i].out) || got.zyn != want[i].zyn {
-				msg := fmt.Sprintf("%s: after delivering subset %0*b of frame A's %d packets (%d garbage inputs before; fragment left open: %v), packet %d/%d of the intact frame B decodes to %s (err %v, Z/Y/N %s); a fresh depacketizer gives %s (err %v, Z/Y/N %s)",
+				msg := fmt.Sprintf("%s: after delivering subset %0*b of frame A's %d packets (%d garbage inputs interleaved; fragment left open: %v), packet %d/%d of the intact frame B decodes to %s (err %v, Z/Y/N %s); a fresh depacketizer gives %s (err %v, Z/Y/N %s)",
 					c.Codec, nA, m, nA, len(c.Garbage), open, i, len(b), hx(got.out), got.err, got.zyn, hx(want[i].out), want[i].err, want[i].zyn)
 				if c.Codec != "av1" && !got.err && !want[i].err && len(want[i].out) >= 5 && len(got.out) > len(want[i].out) && got.out[4] == want[i].out[4] && bytes.HasSuffix(got.out, want[i].out[5:]) {
 					if e := r.finding("F21-h264-fua-buffer-not-reset-on-start", "%s", msg); e != nil {
@@ -256,32 +266,45 @@ func genLossCase(t *rapid.T) *LossCase {
 	c := &LossCase{Codec: rapid.SampledFrom([]string{"h264", "h264avc", "av1", "av1"}).Draw(t, "codec"), Seed: rapid.Uint64().Draw(t, "seed")}
 	c.A = genLossFrame(t, c.Codec, true, "a.")
 	c.B = genLossFrame(t, c.Codec, rapid.IntRange(0, 3).Draw(t, "bfrag") != 0, "b.")
-	ng := rapid.SampledFrom([]int{0, 0, 0, 1, 2, 5}).Draw(t, "ngarbage")
+	ng := rapid.SampledFrom([]int{0, 0, 1, 1, 2, 5}).Draw(t, "ngarbage")
+	var aPkts [][]byte
+	if ng > 0 {
+		aPkts = c.A.packets(c.Codec)
+	}
 	for i := 0; i < ng; i++ {
 		var g []byte
-		if genBool(t, "garbagekind") {
+		switch rapid.IntRange(0, 3).Draw(t, "garbagekind") {
+		case 0:
 			g = rapid.SliceOfN(rapid.Byte(), 0, 12).Draw(t, "garbage")
-		} else {
+		case 1:
 			// a stray fragment of the codec: continuation without start
 			if c.Codec == "av1" {
-				g = append([]byte{rapid.SampledFrom([]uint8{0xC0, 0x40, 0x80, 0x50, 0x90}).Draw(t, "g0")}, rapid.SliceOfN(rapid.Byte(), 1, 8).Draw(t, "gbody")...)
+				g = append([]byte{rapid.SampledFrom([]uint8{0xC0, 0x40, 0x80, 0x50, 0x90, 0x48, 0x08, 0xA0}).Draw(t, "g0")}, rapid.SliceOfN(rapid.Byte(), 1, 8).Draw(t, "gbody")...)
 			} else {
 				g = append([]byte{0x7C, rapid.SampledFrom([]uint8{0x05, 0x85, 0x45, 0x01}).Draw(t, "g1")}, rapid.SliceOfN(rapid.Byte(), 0, 8).Draw(t, "gbody")...)
+			}
+		default:
+			// a damaged copy of one of frame A's own packets (truncated / bytes changed)
+			if len(aPkts) == 0 {
+				g = []byte{0}
+			} else {
+				src := aPkts[rapid.IntRange(0, len(aPkts)-1).Draw(t, "gsrc")]
+				g = applyMuts(src, genMuts(t, 2, 4))
 			}
 		}
 		if g == nil {
 			g = []byte{}
 		}
-		c.Garbage = append(c.Garbage, g)
+		c.Garbage = append(c.Garbage, Garbage{Pos: rapid.IntRange(0, 12).Draw(t, "gpos"), Data: g})
 	}
 
 	return c
 }
 
-const ruleC15 = "rapid draws (codec in {H264Packet Annex-B, H264Packet AVC, AV1Depacketizer}, frame A with at least one fragmented unit packetised by the library's payloader or (H264) the independent encoder, frame B of any shape, 0-5 garbage inputs: random strings or stray continuation fragments); for A of up to 10 packets ALL 2^n delivery subsets are enumerated in order (1024 drawn subsets beyond that), each followed by the complete frame B; oracle: for every packet of B the output bytes, error-ness and AV1 Z/Y/N of the used receiver equal those of a fresh receiver fed B only. Non-trivial = case in which some subset leaves a fragment train open (start delivered, end lost) and B contains a fragmented unit; evaluations count cases plus enumerated subsets; distinct = FNV-64 of the JSON case"
+const ruleC15 = "rapid draws (codec in {H264Packet Annex-B, H264Packet AVC, AV1Depacketizer}, frame A with at least one fragmented unit packetised by the library's payloader or (H264) the independent encoder, frame B of any shape, 0-5 garbage inputs - random strings, stray continuation fragments or damaged copies of A's own packets - interleaved at drawn positions before, inside and after A and always delivered); for A of up to 10 packets ALL 2^n delivery subsets are enumerated in order (1024 drawn subsets beyond that), each followed by the complete frame B; oracle: for every packet of B the output bytes, error-ness and AV1 Z/Y/N of the used receiver equal those of a fresh receiver fed B only. Non-trivial = case in which some subset leaves a fragment train open (start delivered, end lost) and B contains a fragmented unit; evaluations count cases plus enumerated subsets; distinct = FNV-64 of the JSON case"
 
 func TestC15(t *testing.T) {
 	r := begin(t, "C15", "fault_enumeration", ruleC15)
 	defer r.finish()
-	subC15.rapidRun(r, n(400, 6000), genLossCase)
+	subC15.rapidRun(r, n(1500, 8000), genLossCase)
 }
